@@ -149,11 +149,11 @@ Print Assumptions C20_never_both_fields.
 
 (* ---------- answer verification ---------- *)
 
-(* verifyChoiceMatch accepts exactly when, among the existing choices, the
-   marked ones are the ones whose output equals the question's output *)
+(* verifyChoiceMatch (HEAD, with verifyAnswerInRange of commit 1e7a3a9) accepts
+   exactly when the marked choices are PRECISELY the choices whose output equals
+   the question's output — the property's statement, unguarded *)
 Theorem C20_verify_choice_iff : forall (marks : list nat) (outs : list str) (gen : str),
-  verify_choice marks outs gen = Ok tt <->
-  (forall j o, nth_error outs j = Some o -> (In j marks <-> o = gen)).
+  verify_choice marks outs gen = Ok tt <-> marks_exact marks outs gen.
 Proof. exact verify_choice_iff. Qed.
 Print Assumptions C20_verify_choice_iff.
 
@@ -163,58 +163,66 @@ Theorem C20_verify_choice_result : forall (marks : list nat) (outs : list str) (
 Proof. exact verify_choice_result. Qed.
 Print Assumptions C20_verify_choice_result.
 
-(* The property's statement ("the marked choices are PRECISELY the choices
-   whose output equals the question's") is [marks_exact].  It holds of the code
-   as it is only under the guard that every mark names an existing choice: *)
-Theorem C20_verify_choice_full_guarded : forall (marks : list nat) (outs : list str) (gen : str),
+(* verifyAnswerInRange decides "every mark names an existing choice" *)
+Theorem C20_marks_in_range_spec : forall (marks : list nat) (n : nat),
+  marks_in_range marks n = true <-> (forall m, In m marks -> (m < n)%nat).
+Proof. exact marks_in_range_spec. Qed.
+Print Assumptions C20_marks_in_range_spec.
+
+(* ---------- regression: the function before commit 1e7a3a9 ---------- *)
+
+(* the walk alone decides the statement only among the EXISTING choices … *)
+Theorem C20_verify_choice_iff_before_fix : forall (marks : list nat) (outs : list str) (gen : str),
+  verify_choice_before_fix marks outs gen = Ok tt <->
+  (forall j o, nth_error outs j = Some o -> (In j marks <-> o = gen)).
+Proof. exact verify_choice_before_fix_iff. Qed.
+Print Assumptions C20_verify_choice_iff_before_fix.
+
+(* … hence the full statement only under the guard that every mark names an
+   existing choice … *)
+Theorem C20_verify_choice_full_guarded_before_fix : forall (marks : list nat) (outs : list str) (gen : str),
   (forall m, In m marks -> (m < List.length outs)%nat) ->
-  (verify_choice marks outs gen = Ok tt <-> marks_exact marks outs gen).
-Proof. exact verify_choice_full_guarded. Qed.
-Print Assumptions C20_verify_choice_full_guarded.
+  (verify_choice_before_fix marks outs gen = Ok tt <-> marks_exact marks outs gen).
+Proof. exact verify_choice_before_fix_guarded. Qed.
+Print Assumptions C20_verify_choice_full_guarded_before_fix.
 
-(* the unguarded full statement is FALSE of the code as it is *)
-Definition C20_verify_choice_full : Prop :=
-  forall marks outs gen, verify_choice marks outs gen = Ok tt <-> marks_exact marks outs gen.
-
-(* witness (DESIGN §7 row 22): answer "c, e" on four choices of which only c
-   matches; replayed on the implementation by the harness *)
-Theorem C20_verify_choice_full_refuted :
+(* … and the unguarded statement was FALSE of it (DESIGN §7 row 22): answer
+   "c, e" on four choices of which only c matches was accepted *)
+Theorem C20_verify_choice_full_refuted_before_fix :
   exists marks outs gen,
-    verify_choice marks outs gen = Ok tt /\ ~ marks_exact marks outs gen.
+    verify_choice_before_fix marks outs gen = Ok tt /\ ~ marks_exact marks outs gen /\
+    verify_choice marks outs gen = Err EWrongAnswer.
 Proof.
-  exists [2%nat; 4%nat], [s_ "w"; s_ "x"; s_ "g"; s_ "y"], (s_ "g"). split.
+  exists [2%nat; 4%nat], [s_ "w"; s_ "x"; s_ "g"; s_ "y"], (s_ "g"). split; [|split].
   - vm_compute. reflexivity.
   - intro H. assert (I : In 4%nat [2%nat; 4%nat]) by (right; left; reflexivity).
     apply H in I. vm_compute in I. discriminate.
+  - vm_compute. reflexivity.
 Qed.
-Print Assumptions C20_verify_choice_full_refuted.
+Print Assumptions C20_verify_choice_full_refuted_before_fix.
 
 (* the same class through a single-choice answer: "e" on four choices none of
-   which matches is accepted *)
-Theorem C20_verify_single_beyond_refuted :
+   which matches was accepted *)
+Theorem C20_verify_single_beyond_refuted_before_fix :
   exists marks outs gen,
     answer_marks SingleChoice (s_ "e") = Ok marks /\
-    verify_choice marks outs gen = Ok tt /\ ~ marks_exact marks outs gen.
+    verify_choice_before_fix marks outs gen = Ok tt /\ ~ marks_exact marks outs gen /\
+    verify_choice marks outs gen = Err EWrongAnswer.
 Proof.
-  exists [4%nat], [s_ "w"; s_ "x"; s_ "z"; s_ "y"], (s_ "g"). split; [vm_compute; reflexivity|]. split.
+  exists [4%nat], [s_ "w"; s_ "x"; s_ "z"; s_ "y"], (s_ "g"). split; [vm_compute; reflexivity|]. split; [|split].
   - vm_compute. reflexivity.
   - intro H. assert (I : In 4%nat [4%nat]) by (left; reflexivity).
     apply H in I. vm_compute in I. discriminate.
+  - vm_compute. reflexivity.
 Qed.
-Print Assumptions C20_verify_single_beyond_refuted.
+Print Assumptions C20_verify_single_beyond_refuted_before_fix.
 
-(* the corrected function satisfies the full statement, unguarded *)
-Theorem C20_verify_choice_fixed_iff : forall (marks : list nat) (outs : list str) (gen : str),
-  verify_choice_fixed marks outs gen = Ok tt <-> marks_exact marks outs gen.
-Proof. exact verify_choice_fixed_iff. Qed.
-Print Assumptions C20_verify_choice_fixed_iff.
-
-(* and changes nothing where the guard holds *)
-Theorem C20_verify_choice_fixed_agrees : forall (marks : list nat) (outs : list str) (gen : str),
+(* the fix changed nothing where the guard holds *)
+Theorem C20_verify_choice_agrees_before_fix : forall (marks : list nat) (outs : list str) (gen : str),
   (forall m, In m marks -> (m < List.length outs)%nat) ->
-  verify_choice_fixed marks outs gen = verify_choice marks outs gen.
-Proof. exact verify_choice_fixed_agrees. Qed.
-Print Assumptions C20_verify_choice_fixed_agrees.
+  verify_choice marks outs gen = verify_choice_before_fix marks outs gen.
+Proof. exact verify_choice_agrees_before_fix. Qed.
+Print Assumptions C20_verify_choice_agrees_before_fix.
 
 (* text answers: accepted exactly when the question's output and the answer
    (its output, if the answer is a program) are equal up to leading and
@@ -326,7 +334,8 @@ Example C20_ex_verify :
   verify_choice [2%nat] [s_ "w"; s_ "x"; s_ "g"; s_ "y"] (s_ "g") = Ok tt /\
   verify_choice [1%nat] [s_ "w"; s_ "x"; s_ "g"; s_ "y"] (s_ "g") = Err EWrongAnswer /\
   verify_choice [0%nat; 2%nat] [s_ "g"; s_ "x"; s_ "g"] (s_ "g") = Ok tt /\
-  verify_choice_fixed [2%nat; 4%nat] [s_ "w"; s_ "x"; s_ "g"; s_ "y"] (s_ "g") = Err EWrongAnswer /\
+  verify_choice [2%nat; 4%nat] [s_ "w"; s_ "x"; s_ "g"; s_ "y"] (s_ "g") = Err EWrongAnswer /\
+  verify_choice [] [s_ "w"; s_ "x"] (s_ "g") = Ok tt /\
   answer_marks MultipleChoice (s_ " c ,e") = Ok [2%nat; 4%nat] /\
   answer_marks MultipleChoice (s_ "c,,e") = Err ESingleChoice /\
   verify_text (fun _ => s_ "hi there
